@@ -14,6 +14,8 @@ def run(ctx, rep):
     cg.rule_sites(rep, crate, want=('C10',))
     cg.rule_compile_lit(rep, crate)
     cg.rule_literal_escape(rep, crate)
+    # a literal character counts once whether it is a Literal or (under ignore(case)) a class: ignore(case) leaves the default priority alone
+    cg.rule_complexity(rep, crate)
     if ctx.tier == 'thorough':
         crate2 = ctx.mir('codegen-sm')['logos_codegen']
         cg.rule_sites(rep, crate2, want=('C10',))
